@@ -3,10 +3,9 @@ CONSTANTS
   HeadSz <- HeadSize
   Denote <- DenoteMC
   Limits <- MCLimits
-  HBMode = "off"
+  HBMode = "on"
   Table = "GPOS"
-  MaxL = 2
-  TwoSubs = TRUE
+  Shapes = {"2x1", "1x2"}
 INIT MInit
 NEXT RNext
 CONSTRAINTS Bounded NoStuckLig GenEmit Stat
